@@ -713,6 +713,19 @@ def check_memo(prog, raw, memo):
                 if isinstance(x, ast.Call) and isinstance(x.func, ast.Attribute) and _self_attr(x.func, s) in resetters:
                     resetters.add(m.name)
                     break
+    # a method is safe if it drops the cache itself, or is reached only from safe methods of the family (helpers of a resetting method,
+    # recursion included)
+    safe = set(resetters)
+    changed = True
+    while changed:
+        changed = False
+        for name, cs in callers.items():
+            if name in safe:
+                continue
+            others = cs - {name}
+            if others and all(c in safe for c in others):
+                safe.add(name)
+                changed = True
     for b in sorted(reads):
         if b == cache_attr or b in whole:
             continue
@@ -724,10 +737,7 @@ def check_memo(prog, raw, memo):
                 continue
             if m is fn and all(any(node is y for r in memo.region for y in ast.walk(r)) for (_, node) in st):
                 continue                          # written by the memoised computation itself
-            if m.name in resetters:
-                continue
-            cs = callers.get(m.name, set())
-            if cs and all(c in resetters for c in cs):
+            if m.name in safe:
                 continue
             kind, node = st[0]
             problems.append("%s.%s changes self.%s (`%s`, line %d), which the memoised computation reads and the %s does not contain, "
